@@ -11,6 +11,9 @@ import json, os, subprocess, sys, shutil, time, glob
 
 VERIF = os.path.dirname(os.path.dirname(os.path.abspath(__file__)))
 SEEDED = os.path.join(VERIF, "seeded")
+# where the checks are run from (a checkout of an earlier /verif commit when a first evaluation must not see later edits)
+CHECKS_DIR = os.environ.get("SEED_CHECKS_DIR", VERIF)
+WT_BASE = os.environ.get("SEED_WT", "/tmp/wt")
 
 
 def sh(cmd, cwd=None, timeout=3600):
@@ -18,8 +21,8 @@ def sh(cmd, cwd=None, timeout=3600):
     return p.returncode, (p.stdout + p.stderr)
 
 
-def do_import(pid, letters=("A", "B")):
-    wt = f"/tmp/wt/{pid}"
+def do_import(pid, letters=("A", "B"), base="/tmp/wt"):
+    wt = f"{base}/{pid}"
     for x in letters:
         src = f"{wt}/_seed/{x}"
         if not os.path.exists(f"{src}/patch.diff"):
@@ -58,7 +61,7 @@ def do_eval(ids, checks=None, stage="detection"):
         meta = json.load(open(f"{d}/meta.json"))
         if not meta.get("kept"):
             continue
-        wt = f"/tmp/wt/{meta['property']}"
+        wt = f"{WT_BASE}/{meta['property']}"
         if not os.path.isdir(wt):
             sh(f"git worktree add -q --detach {wt} HEAD", cwd="/repo")
         sh("git checkout -- . ", cwd=wt)
@@ -71,13 +74,13 @@ def do_eval(ids, checks=None, stage="detection"):
             cks = [meta["property"]] + list(meta.get("cross_checks", []))
         else:
             cks = checks or [meta["property"]]
-        outdir = f"/tmp/seedout/{sid}"
+        outdir = f"/tmp/seedout/{os.path.basename(WT_BASE)}-{sid}"
         try:
             for c in cks:
                 mod = c.lower()
                 for tier in ("quick", "thorough"):
                     t0 = time.time()
-                    rc, out = sh(f"VERIF_REPO={wt} VERIF_OUT={outdir} ./run_check.sh {mod} {tier}", cwd=VERIF, timeout=4 * 3600)
+                    rc, out = sh(f"VERIF_REPO={wt} VERIF_OUT={outdir} ./run_check.sh {mod} {tier}", cwd=CHECKS_DIR, timeout=4 * 3600)
                     lines = [l[:300] for l in out.splitlines() if l.startswith(("VIOLATION", "[C", "  counterexample", "  inconclusive", "  non-repro"))]
                     res[f"{c}:{tier}"] = {"exit": rc, "wall_s": round(time.time() - t0, 1), "summary": lines[:4]}
                     print(sid, c, tier, "exit", rc, f"{time.time() - t0:.0f}s", (lines[1][:200] if len(lines) > 1 else ""), flush=True)
@@ -126,6 +129,9 @@ if __name__ == "__main__":
     elif cmd == "import3":
         for pid in sys.argv[2:]:
             do_import(pid, ("E", "F"))
+    elif cmd == "import4":
+        for pid in sys.argv[2:]:
+            do_import(pid, ("G", "H"), base="/tmp/wt4")
     elif cmd == "eval":
         ids = sys.argv[2:] or sorted(os.path.basename(os.path.dirname(m)) for m in glob.glob(f"{SEEDED}/*/meta.json"))
         do_eval(ids)
